@@ -135,12 +135,15 @@ ProjMatches(ms) == [j \in 1..Len(ms) |-> ProjMatch(ms[j])]
 ObsMatches(m) == [j \in 1..Len(m) |-> <<m[j][1], m[j][2], m[j][3], m[j][4], m[j][5]>>]
 
 \* one mate against one adapter list: is it the choice of matches or their application that deviates?
+\* "record": the read was trimmed as the model says but the matches noted for it (what the info file, the
+\* demultiplexer, the statistics and {adapter_name} consume) are different ones; "choice": other matches were applied
 MateBlame(cfg, table, ads, p, om, hasm, s, q) ==
-  IF ads = <<>> THEN (IF p.seq # s \/ p.qual # q THEN {"action"} ELSE {})
+  IF ads = <<>> THEN (IF p.seq # s \/ p.qual # q THEN {"action"} ELSE {}) \cup (IF hasm /\ om # <<>> THEN {"record"} ELSE {})
   ELSE IF NeedsCut1(table, ads, cfg.action, cfg.times, p) # {} THEN {}
-  ELSE LET c == Cut1(table, ads, cfg.action, cfg.times, p) IN
-       IF hasm /\ ObsMatches(om) # ProjMatches(c[2]) THEN {"choice"}
-       ELSE IF c[1].seq # s \/ c[1].qual # q THEN (IF hasm THEN {"action"} ELSE {"adapter"}) ELSE {}
+  ELSE LET c == Cut1(table, ads, cfg.action, cfg.times, p)
+           outOK == c[1].seq = s /\ c[1].qual = q
+       IN IF hasm /\ ObsMatches(om) # ProjMatches(c[2]) THEN (IF outOK THEN {"record"} ELSE {"choice"})
+          ELSE IF ~outOK THEN (IF hasm THEN {"action"} ELSE {"adapter"}) ELSE {}
 
 AdapterBlame(cfg, table, p1, p2, st) ==
   IF cfg.paired
@@ -149,7 +152,8 @@ AdapterBlame(cfg, table, p1, p2, st) ==
                 differs == x.r1.seq # st.s1 \/ x.r1.qual # st.q1 \/ x.r2.seq # st.s2 \/ x.r2.qual # st.q2
                 orient == IF cfg.revcomp /\ st.isrc >= 0 /\ (st.isrc = 1) # x.isrc THEN {"orient"} ELSE {}
             IN IF cfg.pairads
-               THEN IF st.hasm /\ (ObsMatches(st.m1) # ProjMatches(x.ms1) \/ ObsMatches(st.m2) # ProjMatches(x.ms2)) THEN {"choice"}
+               THEN IF st.hasm /\ (ObsMatches(st.m1) # ProjMatches(x.ms1) \/ ObsMatches(st.m2) # ProjMatches(x.ms2))
+                    THEN (IF differs THEN {"choice"} ELSE {"record"})
                     ELSE IF differs THEN (IF st.hasm THEN {"action"} ELSE {"adapter"}) ELSE {}
                ELSE IF cfg.revcomp /\ cfg.action = "lowercase"
                THEN orient \cup (IF orient = {} /\ differs THEN {"adapter"} ELSE {})       \* (both mates are upper-cased first: not split up)
